@@ -284,7 +284,11 @@ def program_st():
             loc = respell(locs[li % len(locs)], spell, allowed)
             prog.append([kind, loc, val])
             allowed |= hash_values(loc)  # computed at runtime from here on
-        return {"ops": prog, "transient": transient, "layout": layout, "seed": seed}
+        case = {"ops": prog, "transient": transient, "layout": layout, "seed": seed}
+        locs_used = [o[1] for o in prog if has_symbolic(o[1])]
+        if seed % 3 == 0 and len(locs_used) >= 2:
+            case["fork"] = random.Random(seed).sample(locs_used, 2)
+        return case
 
     op = st.tuples(st.sampled_from(["store", "store", "load"]), st.integers(0, 7), st.integers(0, 2), val_st())
     # pool of locations = every template instantiated with every filler: siblings that coincide
@@ -304,6 +308,11 @@ def compile_case(case):
         else:
             body.append(["mstore", out + 32 * n, [L, loc]])
             n += 1
+    if case.get("fork"):
+        # a branch on the equality of two locations (empty arms): whatever the engine learns about
+        # the keys on one side must not be used on the other; the read-back below runs on both sides
+        la, lb = case["fork"]
+        body.append(["if", ["op2", "EQ", la, lb], [["mstore", 0x1E0, ["c", 1]]], [["mstore", 0x1E0, ["c", 2]]]])
     # final read-back of every location used, in program order
     for kind, loc, val in case["ops"]:
         body.append(["mstore", out + 32 * n, [L, loc]])
